@@ -16,6 +16,10 @@ def run(o, ctx, tier, seed, replay=None):
     lines += ["MEM dir=resp framing=%s n=%d ver=0" % (f, n) for f in ("cl", "chunked", "auto") for n in sizes if n >= 100_000]
     # sources that hand out small pieces (100, 300, 511 bytes per read — not powers of two), chunked and auto framing
     lines += ["MEM dir=resp framing=%s n=%d piece=%d" % (f, n, pc) for f in ("chunked", "auto") for n in (1 << 20, 10_000_000 if t == "quick" else 64 << 20) for pc in (100, 300, 511)]
+    # chunked request bodies made of many small chunks, with and without a chunk extension on every chunk (what the decoder keeps
+    # per chunk must not add up)
+    lines += ["MEM dir=%s framing=chunked n=%d csize=%d ext=%d" % (d, n, cs, e) for d in ("req", "reqdrain") for n in (1 << 20, 8 << 20 if t == "quick" else 64 << 20)
+              for cs, e in ((64, 1), (64, 0), (1000, 1))]
     if replay is not None:
         lines = [replay["case"]]
     impl = C.run_sharded(ctx["kimpl"], lines, shards=4)
@@ -38,7 +42,7 @@ def run(o, ctx, tier, seed, replay=None):
         if "peak" not in d:
             o.violations.append({"case": c, "impl": a[:200], "why": "transfer failed: " + a[:60]}); continue
         peak, n = int(d["peak"]), int(f["n"])
-        peaks[(f["dir"] + ("/1.0" if f.get("ver") == "0" else "") + ("/piece%s" % f["piece"] if "piece" in f else ""), f["framing"], n)] = peak
+        peaks[(f["dir"] + ("/1.0" if f.get("ver") == "0" else "") + ("/piece%s" % f["piece"] if "piece" in f else "") + ("/csize%s-ext%s" % (f["csize"], f.get("ext", "0")) if "csize" in f else ""), f["framing"], n)] = peak
         why = None
         if d.get("ok") != "1":
             why = "transfer of %d bytes incomplete (other side saw %s)" % (n, d.get("n"))
